@@ -2,7 +2,10 @@
 (* Trace specification for the front doors (C16).  One event = one abstract       *)
 (* model (the model the Builder machine says a call plan builds) and what each    *)
 (* door of the real system made of it:                                            *)
-(*   B builder following the call plan   T text   K text with constants through   *)
+(*   B builder following the call plan (every operand an Expr, constraints by   *)
+(*   constructor)   N the same plan written the way a user would: the most       *)
+(*   specific operator overload for handles / integer / float / Boolean literals,  *)
+(*   list helpers over handles, sum(), constraint! macros   T text   K text with constants through   *)
 (*   the API   P staged pipes   S one-shot solver                                 *)
 (* Accepted iff                                                                   *)
 (*  - every door's answer is right for the abstract model (Judge: satisfiable iff *)
@@ -40,14 +43,14 @@ SameRows(a, b) ==
 \* identical expression trees: sense, objective tree and constraints (names, trees, relations); the
 \* declaration lists differ by construction (the builder keeps every declared variable)
 SameTrees(m, n) == DOMAIN m # {} /\ DOMAIN n # {} /\ m.sense = n.sense /\ m.obj = n.obj /\ m.cons = n.cons
-Doors == <<"B", "T", "K", "P", "S">>
-Res(ev, d) == CASE d = "B" -> ev.B [] d = "T" -> ev.T [] d = "K" -> ev.K [] d = "P" -> ev.P [] d = "S" -> ev.S
+Doors == <<"B", "N", "T", "K", "P", "S">>
+Res(ev, d) == CASE d = "B" -> ev.B [] d = "N" -> ev.N [] d = "T" -> ev.T [] d = "K" -> ev.K [] d = "P" -> ev.P [] d = "S" -> ev.S
 ValOf(pt, nm) == LET S == {j \in 1..Len(pt) : pt[j].name = nm} IN
                  IF S = {} THEN [has |-> FALSE] ELSE pt[CHOOSE j \in S : TRUE]
 ObsEq(x, y) == x.snap = y.snap /\ x.n = y.n /\ x.d = y.d /\ x.c = y.c
 AllNames(ev) == {ev.dom[i].name : i \in 1..Len(ev.dom)}
-ReadBackProblems(ev) ==
-   LET b == ev.B
+ReadBackProblems(ev, b) ==
+   LET 
        If(c, w) == IF c THEN {w} ELSE {}
    IN
    IF b.out # "solution" THEN {}
@@ -69,16 +72,26 @@ ReadBackProblems(ev) ==
                         \/ (~ev.cons[i].assert /\ (~o.rhs.snap \/ Norm(o.rhs.n, o.rhs.d) # Eval(ev.cons[i].rhs, pt))),
                       "eval(expression) disagrees with the language's semantics at the solution")
             ELSE {})
+Compiled(r) == r.out \in {"solution", "solver_error"}
 Problems(ev) ==
+   IF ~Compiled(ev.T) THEN
+      \* the text door does not compile the program (not linear, division by a zero constant, ...):
+      \* no door may produce a verdict for it
+      {Doors[i] \o ": produces a verdict for a program the text door rejects (" \o ev.T.out \o ")" : i \in {j \in 1..Len(Doors) : Compiled(Res(ev, Doors[j]))}}
+   ELSE
    UNION {{Doors[i] \o ": " \o p : p \in Judge(ev, Res(ev, Doors[i]))} : i \in 1..Len(Doors)}
-   \cup UNION {IF Res(ev, d).has_lm /\ ev.B.has_lm /\ SameTrees(Res(ev, d).model, ev.B.model) /\ ~SameRows(ev.B.lm, Res(ev, d).lm)
-               THEN {"B and " \o d \o " compile identical expression trees to different rows"} ELSE {} : d \in {"T", "K"}}
+   \cup UNION {IF Res(ev, d).has_lm /\ Res(ev, bd).has_lm /\ SameTrees(Res(ev, d).model, Res(ev, bd).model) /\ ~SameRows(Res(ev, bd).lm, Res(ev, d).lm)
+               THEN {bd \o " and " \o d \o " compile identical expression trees to different rows"} ELSE {} : <<bd, d>> \in {"B", "N"} \X {"T", "K"}}
+   \cup (IF ev.B.has_lm /\ ev.N.has_lm /\ SameTrees(ev.B.model, ev.N.model) /\ ~SameRows(ev.B.lm, ev.N.lm)
+         THEN {"B and N compile identical expression trees to different rows"} ELSE {})
    \cup (IF ev.T.has_lm /\ ev.P.has_lm /\ ~SameRows(ev.T.lm, ev.P.lm) THEN {"the pipe runner and the parser+linearizer compile the same text to different rows"} ELSE {})
-   \cup ReadBackProblems(ev)
+   \cup ReadBackProblems(ev, ev.B) \cup {"N: " \o p : p \in ReadBackProblems(ev, ev.N)}
 
 Check(ev) ==
    LET pb == Problems(ev) IN
-   IF pb = {} THEN PrintT(<<"STAT", ev.id, ev.B.out, IF ev.B.has_lm /\ ev.T.has_lm /\ SameTrees(ev.B.model, ev.T.model) THEN 1 ELSE 0, Len(ev.plan.calls)>>)
+   IF pb = {} /\ ~Compiled(ev.T) THEN PrintT(<<"STAT", ev.id, "rejected-by-all", 0, Len(ev.plan.calls), 0>>)
+   ELSE IF pb = {} THEN PrintT(<<"STAT", ev.id, ev.B.out, IF ev.B.has_lm /\ ev.T.has_lm /\ SameTrees(ev.B.model, ev.T.model) THEN 1 ELSE 0, Len(ev.plan.calls),
+                         IF ev.B.has_lm /\ ev.N.has_lm /\ SameTrees(ev.B.model, ev.N.model) THEN 1 ELSE 0>>)
    ELSE PrintT(<<"REJECT", "C16", ev.id, CHOOSE x \in pb : TRUE, ToJson(pb)>>)
 Init == l = Start
 Next == l <= Len(Rec) /\ Check(Rec[l]) /\ l' = l + 1
